@@ -460,22 +460,49 @@ func (mbox *MailboxView) staticNumSet(numSet imap.NumSet) imap.NumSet {
 		return mbox.searchRes
 	}
 
+	// The ranges are re-added one by one: replacing "*" in place could leave
+	// the set unsorted
 	switch numSet := numSet.(type) {
 	case imap.SeqSet:
 		max := uint32(len(mbox.l))
-		for i := range numSet {
-			r := &numSet[i]
+		var static imap.SeqSet
+		for _, r := range numSet {
 			staticNumRange(&r.Start, &r.Stop, max)
+			if r.Start != 0 && r.Stop != 0 {
+				static.AddRange(r.Start, r.Stop)
+			}
 		}
+		return static
 	case imap.UIDSet:
-		max := uint32(mbox.uidNext) - 1
-		for i := range numSet {
-			r := &numSet[i]
-			staticNumRange((*uint32)(&r.Start), (*uint32)(&r.Stop), max)
+		// "*" is the UID of the last message in the mailbox, not the
+		// predicted next UID minus one
+		var max uint32
+		if n := len(mbox.l); n > 0 {
+			max = uint32(mbox.l[n-1].uid)
 		}
+		var static imap.UIDSet
+		for _, r := range numSet {
+			start, stop := uint32(r.Start), uint32(r.Stop)
+			staticNumRange(&start, &stop, max)
+			if start != 0 && stop != 0 {
+				static.AddRange(imap.UID(start), imap.UID(stop))
+			}
+		}
+		return static
 	}
 
 	return numSet
+}
+
+// Expunge resolves "*" in the UID set of UID EXPUNGE before expunging.
+func (mbox *MailboxView) Expunge(w *imapserver.ExpungeWriter, uids *imap.UIDSet) error {
+	if uids != nil {
+		mbox.mutex.Lock()
+		static, _ := mbox.staticNumSet(*uids).(imap.UIDSet)
+		mbox.mutex.Unlock()
+		uids = &static
+	}
+	return mbox.Mailbox.Expunge(w, uids)
 }
 
 func staticNumRange(start, stop *uint32, max uint32) {
